@@ -1236,6 +1236,103 @@ func leavesOf(t types.Type, prefix string, depth int) []leaf {
 	return res
 }
 
+// package level variables of the mechanism packages (and of the helper packages they are built from: template,
+// cellib, values, oauth2, endpoint, ...): name, type and the function whose result the package initialiser stores
+// into it (`sync.OnceValue`, `errors.New`, ...).  Not an obligation: what a memoising initialiser or a lazily filled
+// package variable does inside a library (text/template's shared name space of a template set, for instance) is
+// invisible to the write footprint; the check uses the list to decide which histories it searches for a replay.
+type pkgVar struct {
+	Pkg  string `json:"pkg"`
+	Name string `json:"name"`
+	Type string `json:"type"`
+	Init string `json:"init"`
+}
+
+func packageState(prog *ssa.Program) []pkgVar {
+	res := []pkgVar{}
+
+	for _, p := range prog.AllPackages() {
+		path := p.Pkg.Path()
+		if !strings.HasPrefix(path, module+"internal/rules/mechanisms") && !strings.HasPrefix(path, module+"internal/rules/endpoint") {
+			continue
+		}
+
+		inits := map[string]string{}
+
+		if init := p.Func("init"); init != nil {
+			for _, b := range init.Blocks {
+				for _, ins := range b.Instrs {
+					st, ok := ins.(*ssa.Store)
+					if !ok {
+						continue
+					}
+
+					g, ok := st.Addr.(*ssa.Global)
+					if !ok {
+						continue
+					}
+
+					v := st.Val
+					for {
+						if mi, ok := v.(*ssa.MakeInterface); ok {
+							v = mi.X
+
+							continue
+						}
+
+						if cv, ok := v.(*ssa.ChangeType); ok {
+							v = cv.X
+
+							continue
+						}
+
+						break
+					}
+
+					switch x := v.(type) {
+					case *ssa.Call:
+						inits[g.Name()] = callName(x.Common())
+					case *ssa.MakeClosure, *ssa.Function:
+						inits[g.Name()] = "func"
+					case *ssa.Alloc, *ssa.MakeMap, *ssa.MakeSlice, *ssa.MakeChan:
+						inits[g.Name()] = "alloc"
+					case *ssa.Const:
+						inits[g.Name()] = "const"
+					default:
+						inits[g.Name()] = "other"
+					}
+				}
+			}
+		}
+
+		for name, m := range p.Members {
+			g, ok := m.(*ssa.Global)
+			if !ok || strings.HasPrefix(name, "init$") {
+				continue
+			}
+
+			t := g.Type()
+			if pt, ok := t.(*types.Pointer); ok {
+				t = pt.Elem()
+			}
+
+			res = append(res, pkgVar{
+				Pkg: strings.TrimPrefix(path, module), Name: name, Type: types.TypeString(t, nil), Init: inits[name],
+			})
+		}
+	}
+
+	sort.Slice(res, func(i, j int) bool {
+		if res[i].Pkg != res[j].Pkg {
+			return res[i].Pkg < res[j].Pkg
+		}
+
+		return res[i].Name < res[j].Name
+	})
+
+	return res
+}
+
 func fail(format string, args ...any) {
 	fmt.Fprintf(os.Stderr, "footprint: "+format+"\n", args...)
 	os.Exit(2)
@@ -1582,6 +1679,7 @@ func main() {
 
 		data, _ := json.MarshalIndent(map[string]any{
 			"entries": entries, "functions_analysed": len(a.order), "address_taken": len(a.addrTaken), "notes": notes,
+			"package_state": packageState(prog),
 		}, "", " ")
 		if err := os.WriteFile(*jsonOut, data, 0o600); err != nil {
 			fail("write %s: %v", *jsonOut, err)
